@@ -150,5 +150,14 @@ func (f Descent) locate(pp Expr, data any, rest Expr, max int) (locs []Expr) {
 
 // Walk each element in the tree of elements.
 func (f Descent) Walk(rest, path Expr, nodes []any, cb func(path Expr, nodes []any)) {
-	wildWalk(rest, path, nodes, cb, f)
+	// The rest of the path applies to the node the descent starts at as well
+	// as to every descendant (wildWalk applies it to the members before it
+	// recurses with descentNested).
+	if f != descentNested && 0 < len(rest) {
+		rest[0].Walk(rest[1:], path, nodes, cb)
+	}
+	wildWalk(rest, path, nodes, cb, descentNested)
 }
+
+// descentNested marks the recursive calls of Descent.Walk.
+const descentNested = Descent(1)
